@@ -11,78 +11,9 @@ From Coq.Strings Require Import Byte.
 From GI Require Import Lib.Bytes Gen.TxtarConsts Gen.TxtarQuoteConsts Txtar.Txtar Txtar.TxtarIndex.
 Import ListNotations.
 
-(* bytes.Count(s, sep), len(sep) >= 2:
-     n := 0; for { i := Index(s, sep); if i == -1 { return n }; n++; s = s[i+len(sep):] } *)
-Fixpoint count_loop (fuel : nat) (sep s : bytes) (n : nat) : res nat :=
-  match fuel with
-  | 0 => OutOfFuel
-  | S f =>
-      match index_sub sep s with
-      | None => Ok n
-      | Some i =>
-          match slice_z s (Z.of_nat i + len sep) (len s) with
-          | None => Panic
-          | Some s' => count_loop f sep s' (S n)
-          end
-      end
-  end.
-Definition count_sub (s sep : bytes) : res nat := count_loop (length s + 1) sep s 0.
-
-(* copy(t[w:], x) where t was allocated with [alloc] bytes and w = len of what was
-   written so far: copies min(len(x), alloc-w) bytes; t[w:] panics if w > alloc *)
-Definition copy_into (alloc : nat) (t x : bytes) : option bytes :=
-  if Nat.leb (length t) alloc then Some (t ++ firstn (alloc - length t) x) else None.
-
-(* the loop of bytes.Replace for len(old) > 0:
-     for i := 0; i < n; i++ { j := start + Index(s[start:], old);
-       w += copy(t[w:], s[start:j]); w += copy(t[w:], new); start = j + len(old) }
-     w += copy(t[w:], s[start:]); return t[0:w] *)
-Fixpoint replace_loop (n alloc : nat) (s old new : bytes) (start : Z) (t : bytes) : res bytes :=
-  match n with
-  | 0 =>
-      match slice_z s start (len s) with
-      | None => Panic
-      | Some rest => match copy_into alloc t rest with Some t' => Ok t' | None => Panic end
-      end
-  | S n' =>
-      match slice_z s start (len s) with
-      | None => Panic
-      | Some rest =>
-          let j := (start + match index_sub old rest with Some k => Z.of_nat k | None => -1 end)%Z in
-          match slice_z s start j with
-          | None => Panic
-          | Some seg =>
-              match copy_into alloc t seg with
-              | None => Panic
-              | Some t1 =>
-                  match copy_into alloc t1 new with
-                  | None => Panic
-                  | Some t2 => replace_loop n' alloc s old new (j + len old) t2
-                  end
-              end
-          end
-      end
-  end.
-
-(* bytes.Replace(s, old, new, -1), len(old) >= 2 *)
-Definition replace_all (s old new : bytes) : res bytes :=
-  match count_sub s old with
-  | Ok m =>
-      if Nat.eqb m 0 then Ok s   (* append([]byte(nil), s...) *)
-      else
-        (* t := make([]byte, len(s)+n*(len(new)-len(old))): panics if negative *)
-        let alloc := (len s + Z.of_nat m * (len new - len old))%Z in
-        if (alloc <? 0)%Z then Panic
-        else replace_loop m (Z.to_nat alloc) s old new 0 []
-  | Panic => Panic
-  | OutOfFuel => OutOfFuel
-  end.
-
-(* bytes.TrimPrefix *)
-Definition trim_prefix (p s : bytes) : res bytes :=
-  if has_prefix p s then
-    match slice_z s (len p) (len s) with Some r => Ok r | None => Panic end
-  else Ok s.
+(* bytes.Count (count_loop, count_sub), the copy loop of bytes.Replace (copy_into,
+   replace_loop, replace_all) and bytes.TrimPrefix (trim_prefix) are shared with the source
+   translator's semantics and live in Lib/GoSem.v (exported by TxtarIndex). *)
 
 Definition first_byte (l : bytes) : byte := match l with b :: _ => b | [] => x00 end.
 
